@@ -124,6 +124,12 @@ static void roundtrip(const uint64_t *xb, size_t n, int prec, int mode, int auto
 
 static uint64_t *cls;
 static size_t ncls;
+typedef struct span_cls {
+    int base, span;
+    char top[16], low[16];
+} span_cls;
+static span_cls *spans;
+static size_t nspans;
 
 int main(int argc, char **argv) {
     if (argc < 6) {
@@ -145,7 +151,11 @@ int main(int argc, char **argv) {
     while (fgets(line, sizeof(line), f)) {
         int s, e;
         char mant[32];
-        if (sscanf(line, "FCLASS %d %d %31s", &s, &e, mant) == 3) {
+        span_cls sc;
+        if (sscanf(line, "FSPAN %d %d %15s %15s", &sc.base, &sc.span, sc.top, sc.low) == 4) {
+            spans = realloc(spans, (nspans + 1) * sizeof(*spans));
+            spans[nspans++] = sc;
+        } else if (sscanf(line, "FCLASS %d %d %31s", &s, &e, mant) == 3) {
             cls[ncls++] = make(s, e, mant);
         } else if (sscanf(line, "FSPECIAL %31s", mant) == 1) {
             cls[ncls++] = special(mant);
@@ -164,6 +174,26 @@ int main(int argc, char **argv) {
                 roundtrip(&cls[i], 1, prec, mode, 0, 0);
                 uint64_t pair[3] = {cls[r % ncls], cls[i], cls[(r >> 20) % ncls]};
                 roundtrip(pair, 3, prec, mode, 0, 0);
+            }
+        }
+    }
+    /* exponent spans on both sides of the COMMON_EXPONENT offset byte, top and
+     * bottom elements with and without a rounding carry, both orders, with
+     * and without elements in between */
+    for (size_t i = 0; i < nspans; i++) {
+        const span_cls *sc = &spans[i];
+        for (int prec = 0; prec < 4; prec++) {
+            for (int mode = 0; mode < 3; mode++) {
+                uint64_t lo = make((int)(rng_u64() & 1), sc->base, sc->low);
+                uint64_t hi = make((int)(rng_u64() & 1), sc->base + sc->span, sc->top);
+                uint64_t mid = make(0, sc->base + 1 + (int)(rng_u64() % (unsigned)(sc->span - 1)), "rand");
+                if (idx++ % nshards != shard) {
+                    continue;
+                }
+                uint64_t a2[2] = {lo, hi}, b2[2] = {hi, lo}, a3[4] = {mid, hi, special("pinf"), lo};
+                roundtrip(a2, 2, prec, mode, 0, 0);
+                roundtrip(b2, 2, prec, mode, 0, 0);
+                roundtrip(a3, 4, prec, mode, 0, 0);
             }
         }
     }
